@@ -834,13 +834,22 @@ func c45MutateText(rt *rapid.T, text []byte) ([]byte, string) {
 
 // c45Generate produces one input for one target from the corpus.
 func c45Generate(rt *rapid.T, p *keyPool, items []c45Item) (target int, data, aux []byte, desc string) {
-	it := items[rapid.IntRange(0, len(items)-1).Draw(rt, "item")]
+	// pick the artefact kind first so that the many key files do not crowd out the rest
+	kinds := []string{"keyring", "armored-keyring", "message", "message", "armored-message", "detached", "armored-detached", "clearsign"}
+	kind := rapid.SampledFrom(kinds).Draw(rt, "kind")
+	var cand []int
+	for i := range items {
+		if items[i].kind == kind {
+			cand = append(cand, i)
+		}
+	}
+	it := items[cand[rapid.IntRange(0, len(cand)-1).Draw(rt, "item")]]
 	target = it.target
 	aux = it.aux
 	data = it.data
 	desc = it.name
 	textual := strings.HasPrefix(it.kind, "armored") || it.kind == "clearsign"
-	nm := rapid.IntRange(0, 3).Draw(rt, "nmut")
+	nm := rapid.SampledFrom([]int{0, 1, 1, 1, 1, 2, 2, 2, 3, 3}).Draw(rt, "nmut")
 	for i := 0; i < nm; i++ {
 		var kind string
 		if textual {
@@ -1122,4 +1131,44 @@ func FuzzC45Clearsign(f *testing.F) {
 		}
 	}
 	f.Fuzz(func(t *testing.T, data []byte) { fuzzJudge(t, c45Exec(p, c45Clearsign, data, nil, 0)) })
+}
+
+// TestGenFuzzSeeds writes the regression seeds of the native fuzz targets
+// (run by hand with VF_GENSEEDS=1; the files are committed).
+func TestGenFuzzSeeds(t *testing.T) {
+	if os.Getenv("VF_GENSEEDS") == "" {
+		t.Skip("set VF_GENSEEDS=1 to regenerate testdata/fuzz")
+	}
+	p, err := loadPool()
+	if err != nil {
+		t.Fatal(err)
+	}
+	write := func(target, name string, vals ...any) {
+		dir := filepath.Join("testdata", "fuzz", target)
+		os.MkdirAll(dir, 0o755)
+		s := "go test fuzz v1\n"
+		for _, v := range vals {
+			switch x := v.(type) {
+			case []byte:
+				s += fmt.Sprintf("[]byte(%q)\n", x)
+			case byte:
+				s += fmt.Sprintf("byte(%q)\n", rune(x))
+			}
+		}
+		if err := os.WriteFile(filepath.Join(dir, name), []byte(s), 0o644); err != nil {
+			t.Fatal(err)
+		}
+	}
+	ecc, _ := dearmor(p.eccSec)
+	write("FuzzC45Keyring", "f31-gpg-ecdh-secret-keyring", ecc)
+	write("FuzzC45Armored", "f31-gpg-ecdh-secret-keyring-armored", p.eccSec)
+	write("FuzzC45Message", "f32-one-byte-session-key-block", c45F32Witness(p), byte(0))
+	write("FuzzC45Message", "f36-elgamal-c2-zero", c45F36Witness(p), byte(0))
+	write("FuzzC45Armor", "f34-empty-header-value", []byte("-----BEGIN PGP MESSAGE-----\nComment: \n\naGVsbG8=\n=R/WK\n-----END PGP MESSAGE-----"), byte(0))
+	td := testdataDir()
+	cs, _ := os.ReadFile(filepath.Join(td, "seeds", "gpg-clearsign-ec384.asc"))
+	write("FuzzC45Clearsign", "gpg-clearsign", cs)
+	sig, _ := os.ReadFile(filepath.Join(td, "seeds", "gpg-detach-ec521.sig"))
+	doc, _ := os.ReadFile(filepath.Join(td, "seeds", "msg.txt"))
+	write("FuzzC45Detached", "gpg-detached", sig, doc)
 }
